@@ -908,6 +908,8 @@ func (r *nodeRun) scenario(outDir string, n, t int, twoRounds bool) {
 						apply(mu) // after it (replays of an already applied message included)
 					} else if i >= perMsg && (mu.name == "replay-other-round" || mu.name == "recon-names-other-round") && m.Event == string(ctypes.SignatureReconstructed) {
 						apply(mu) // always: the only message kind whose payload names a round itself (C08)
+					} else if (i >= perMsg || i < half) && mu.name == "data-byteflip" {
+						apply(mu) // always: the signature the node has just accepted, over altered bytes (C09)
 					}
 				}
 				// exact duplicate of the genuine message (C13/C08: re-applying is a rejection or idempotent)
